@@ -212,7 +212,8 @@ class SR:
     def _div(self, num_v, num_n, den_v, den_n):
         if isinstance(den_v, Fraction):
             if den_v == 0:
-                raise Unsupported("division by constant zero")
+                # IEEE gives nan (0/0) or +-inf; both are represented as "non-finite" (NaN flag)
+                return SR(Fraction(0), z3.BoolVal(True))
             if isinstance(num_v, Fraction):
                 return SR(num_v / den_v, _or(num_n, den_n))
             return SR(term(num_v) * _rv(1 / den_v), _or(num_n, den_n))
@@ -563,7 +564,7 @@ class Result:
 
 
 class Ctx:
-    def __init__(self, mode="sym", model=None, branch_timeout_ms=300, check_timeout_ms=60000, max_paths=200000,
+    def __init__(self, mode="sym", model=None, branch_timeout_ms=300, check_timeout_ms=30000, max_paths=200000,
                  max_cex_per_label=2):
         self.mode = mode
         self.model = model or {}
@@ -617,6 +618,7 @@ class Ctx:
         self.prefix = prefix
         self.work = work
         self.taken = []
+        self.decided = {}
         self.defined = []
         self.fresh = 0
         self.inputs = {}
@@ -662,6 +664,9 @@ class Ctx:
             return True
         if z3.is_false(expr):
             return False
+        key = expr.get_id()
+        if key in self.decided:
+            return self.decided[key][1]
         i = len(self.taken)
         if i < len(self.prefix):
             d = self.prefix[i]
@@ -679,6 +684,7 @@ class Ctx:
             else:
                 raise PathAbort()
         self.taken.append(d)
+        self.decided[key] = (expr, d)  # keep expr alive so that the ast id stays unique
         self.solver.add(expr if d else z3.Not(expr))
         return d
 
@@ -774,8 +780,12 @@ class Ctx:
     def feasible(self):
         return self._check(timeout=self.check_timeout_ms) != "unsat"
 
-    def check(self, claim, label, info=None, timeout=None, assume_defined=True):
-        """obligation: claim must hold on this path for every value of the symbols"""
+    def check(self, claim, label, info=None, timeout=None, assume_defined=True, abstract=None, lemmas=None):
+        """obligation: claim must hold on this path for every value of the symbols.
+        abstract: list of SR whose (large) terms are replaced by fresh variables first (sound: validity of the
+                  abstracted claim implies validity of the instance); falls back to the unabstracted query.
+        lemmas:   conditions already proved on this path (return value True of an earlier check) that the abstracted
+                  query may use."""
         if self.mode == "conc":
             ok = self._concbool(claim)
             self.conc_checked += 1
@@ -786,29 +796,38 @@ class Ctx:
         res.obligations += 1
         lab = res.by_label.setdefault(label, dict(n=0, ok=0, sat=0, unknown=0))
         lab["n"] += 1
-        ce = z3.simplify(self._tobool(claim))
+        raw = self._tobool(claim)
+        ce = z3.simplify(raw)
         if len(res.samples) < 6 and label not in [s["label"] for s in res.samples]:
-            s = str(ce)
-            res.samples.append(dict(case=res.name, label=label, path=len(self.taken),
+            s = str(raw)
+            res.samples.append(dict(case=res.name, label=label, path_decisions=len(self.taken),
                                     claim=(s[:300] + "...") if len(s) > 300 else s, info=info))
-        if z3.is_true(ce):
+        if z3.is_true(ce) or self._identity(ce):
             res.discharged += 1
             lab["ok"] += 1
             return True
         extra = [z3.Not(ce)]
         if assume_defined and self.defined:
             extra += self.defined
-        self.solver.set("timeout", int(timeout or self.check_timeout_ms))
+        tmo = int(timeout or self.check_timeout_ms)
         t0 = time.time()
-        self.solver.push()
-        self.solver.add(*extra)
-        r = str(self.solver.check())
+        r = None
+        if abstract:
+            # substitute in the unsimplified claim: the simplifier rearranges the terms to be matched
+            r = self._check_abstract([z3.Not(raw)] + extra[1:], abstract, lemmas or [], tmo)
+            res.queries += 1
         model = None
-        if r == "sat":
-            model = self._model_dict(self.solver.model())
-        self.solver.pop()
+        if r != "unsat":
+            self.solver.set("timeout", tmo)
+            self.solver.push()
+            self.solver.add(*extra)
+            r = str(self.solver.check())
+            if r == "sat":
+                model = self._model_dict(self.solver.model())
+            reason = self.solver.reason_unknown() if r == "unknown" else None
+            self.solver.pop()
+            res.queries += 1
         res.solver_s += time.time() - t0
-        res.queries += 1
         if r == "unsat":
             res.discharged += 1
             lab["ok"] += 1
@@ -820,8 +839,39 @@ class Ctx:
                                     notes=list(self.path_note)))
             return False
         lab["unknown"] += 1
-        res.unknown.append(dict(label=label, info=info, reason=self.solver.reason_unknown()))
+        res.unknown.append(dict(label=label, info=info, reason=reason))
         return None
+
+    def _identity(self, ce):
+        """a == b decided by polynomial normalisation (z3 simplifier, sum-of-monomials form)"""
+        try:
+            if z3.is_eq(ce) and ce.arg(0).sort() == _R:
+                d = z3.simplify(ce.arg(0) - ce.arg(1), som=True, flat=True)
+                return z3.is_rational_value(d) and d.numerator_as_long() == 0
+            if z3.is_and(ce):
+                return all(self._identity(c) for c in ce.children())
+        except z3.Z3Exception:
+            pass
+        return False
+
+    def _check_abstract(self, extra, abstract, lemmas, tmo):
+        pairs = []
+        for k, x in enumerate(abstract):
+            t = x.v if isinstance(x, SR) else x
+            if isinstance(t, z3.ExprRef) and not z3.is_const(t):
+                pairs.append((t, z3.Real(f"abs!{k}")))
+        # larger terms first so that sub-terms of other abstracted terms do not break the match
+        pairs.sort(key=lambda p: -len(p[0].sexpr()))
+        s2 = z3.Solver()
+        s2.set("timeout", tmo)
+        sub = lambda e: z3.substitute(e, *pairs) if pairs else e
+        for a in self.solver.assertions():
+            s2.add(sub(a))
+        for l in lemmas:
+            s2.add(sub(self._tobool(l)))
+        for e in extra:
+            s2.add(sub(e))
+        return str(s2.check())
 
     def noraise(self, label, fn, *a, **k):
         """claim: fn(*a, **k) (real code) returns without raising on this path. An exception is a counterexample
